@@ -559,6 +559,7 @@ func (w *World) step(draw bool) bool {
 		} else if adv && w.advNum > 0 && w.T.Bool(w.advNum, 64, "advance?") {
 			w.advanceTo(at, "while-busy")
 			w.Probe("clock-advanced-while-tasks-enabled")
+			w.Fault("task.stall")
 			return true
 		}
 		switch {
